@@ -4,7 +4,7 @@ import nodecheck
 PROFILE = dict(outbound=0.3)
 W = nodecheck.weights(stray_answer=4, bad_request=4, burst=2)
 N_QUICK, N_THOROUGH, LENGTH = 60, 1500, 18
-THEMES = (("ready", 2, 60, 2, 3000), ("answers", 300, 0, None, 0), ("handshake_in", 1, 20, 2, 200))
+THEMES = (("ready", 2, 60, 2, 3000), ("answers", 300, 0, None, 0), ("partial_reads", None, 0, None, 0), ("handshake_in", 1, 20, 2, 200))
 FILES = ["Props/C07.v"]
 
 
